@@ -1,36 +1,46 @@
 //! Directed experiments (debug aid, not a registered check).
 use crate::dec::*;
-use jxlgen::codestream::*;
-use jxlgen::headers::*;
-use jxlgen::modmodel::*;
-use jxlgen::modular::*;
-use jxlgen::rng::Rng;
-use std::sync::Arc;
 
 pub fn run() -> i32 {
-    let mut rng = Rng::new(1);
-    let w = 12usize;
-    let ih = ImageHeader { size: SizeHeader::new(w as u32, 1), metadata: ImageMetadata::plain(BitDepth::Int { bits: 3 }, true, vec![]) };
-    let fh = FrameHeader::modular(&ih);
-    let infos = modular_channel_infos(&ih, &fh);
-    let layout = group_layout(&fh);
-    let mut idx = vec![14i32; w];
-    idx[9] = 2;
-    let pal: Vec<i32> = (0..16).map(|i| if i == 14 { 1 } else { 7 }).collect();
-    let opts = ModularOpts {
-        bit_depth: 3, range_lo: -1000, range_hi: 1000, sample_lo: 0, sample_hi: 7, allow_wp: true, allow_lz77: false, plain_entropy: true,
-        local_tree_pct: 0, local_transform_pct: 0,
-        transforms: Some(vec![Transform::Palette { begin_c: 0, num_c: 1, nb_colours: 16, nb_deltas: 8, d_pred: 6 }]),
-        max_transforms: 1, force_tree: Some(MaTree::from_spec(&TreeSpec::leaf(0))), palette_special: true,
-        force_gens: Some(vec![Gen::Values(Arc::new(pal), 16), Gen::Values(Arc::new(idx), w)]),
-    };
-    let enc = encode_modular(&mut rng, &infos, &layout, &opts).expect("encode");
-    let mut out = write_codestream_header(&ih, &mut rng, false, None);
-    let sections = modular_frame_sections(&fh, &enc, &plain_lf_global_prefix());
-    write_frame(&mut out, &mut rng, &ih, &fh, sections, false, false);
-    let image = open_image(&out, Pool::None, true).expect("open");
-    let got = frame_level_modular::<i32>(&image, 0).expect("decode");
-    println!("model  : {:?}", enc.channels[0].data);
-    println!("decoder: {:?}", got[0].2);
+    let path = std::env::var("LAB_FILE").unwrap_or_else(|_| "/tmp/in.jxl".into());
+    let bytes = std::fs::read(&path).expect("read");
+    let mut image = open_image(&bytes, Pool::None, true).expect("open");
+    println!("pixel format {:?}", image.pixel_format());
+    let mode = std::env::var("LAB_MODE").unwrap_or_default();
+    if mode.contains("icc") {
+        let icc = image.rendered_icc();
+        println!("rendered icc {} bytes; request_icc -> {:?}", icc.len(), image.request_icc(&icc).map(|_| ()));
+    }
+    if mode.contains("orig") {
+        let icc = image.original_icc().map(|x| x.to_vec()).unwrap_or_default();
+        println!("original icc {} bytes; request_icc -> {:?}", icc.len(), image.request_icc(&icc).map(|_| ()));
+    }
+    match image.render_frame(0) {
+        Ok(r) => println!("render ok, {} planes", r.image_planar().len()),
+        Err(e) => println!("render err {e}"),
+    }
+    0
+}
+
+pub fn preview_probe() -> i32 {
+    let mut rng = jxlgen::rng::Rng::new(5);
+    let (mut ok, mut bad) = (0, 0);
+    for _ in 0..200 {
+        let Some(b) = jxlgen::hostile::preview_carrier_modular(&mut rng) else { continue };
+        match open_image(&b, Pool::None, true) {
+            Ok(img) => match img.render_frame(0) {
+                Ok(_) => ok += 1,
+                Err(e) => {
+                    bad += 1;
+                    println!("render err {e}");
+                }
+            },
+            Err(e) => {
+                bad += 1;
+                println!("open err {e}");
+            }
+        }
+    }
+    println!("ok {ok} bad {bad}");
     0
 }
